@@ -111,7 +111,7 @@ func strList(xs []string) string {
 func runRoute(seed uint64, n int, tier string, out string, replay string) {
 	rnd := hx.NewRand(seed)
 	sum := hx.NewSummary("route", seed)
-	sum.Rule = "one case = one location set (1-5 locations; host list and prefix list drawn from 4 fixed shapes or (60%) 1-4 related prefixes from a pool of 10 in any order (nested prefixes, duplicates); names possibly shared or unlisted; declaration order random) queried with every (host, URI) of a 3x11 universe under 3 server location lists; observable = which configured location the real Locations.Get returns; 6% of the queries are also sent through a long-lived server's proxy middleware (kept across cases while the location registry is re-applied for every case, as a reload does) to five recording origins: the answering origin must be the chosen location's upstream, and none may be contacted when no location matches; non-trivial = at least two eligible locations of different classes for some query; distinct by the location set"
+	sum.Rule = "one case = one location set (1-5 locations; host list and prefix list drawn from 4 fixed shapes or (60%) 1-4 related prefixes from a pool of 10 in any order (nested prefixes, duplicates); names possibly shared or unlisted; declaration order random) queried with every (host, URI) of a 3x11 universe under 3 server location lists asked in both orders (all, a subset, a single name; then single, subset, all); observable = which configured location the real Locations.Get returns; 6% of the queries are also sent through a long-lived server's proxy middleware (kept across cases while the location registry is re-applied for every case, as a reload does) to five recording origins: the answering origin must be the chosen location's upstream, and none may be contacted when no location matches; non-trivial = at least two eligible locations of different classes for some query; distinct by the location set"
 	header := "From Coq Require Import List NArith ZArith.\nImport ListNotations.\nFrom Pike Require Import Base.Bytes Model.Location Corr.C14Corr.\nFrom PikeRun Require Import Consts.\n"
 	w := hx.NewCaseWriter(out, "route", header, "list rt_case", "check_cases Consts.loc_pconsts", 60, sum)
 	distinct := hx.NewDistinct()
@@ -163,6 +163,11 @@ func runRoute(seed uint64, n int, tier string, out string, replay string) {
 		var qTerms []string
 		var qRep []interface{}
 		nontrivial := false
+		// the three lists, then the same three in reverse order: what a lookup for one server's list answers
+		// must not depend on which other server asked before
+		for k := len(nameLists) - 1; k >= 0; k-- {
+			nameLists = append(nameLists, nameLists[k])
+		}
 		for _, names := range nameLists {
 			for _, h := range rtHosts {
 				for _, u := range rtURIs {
